@@ -346,13 +346,22 @@ from vf.sym import Sym, lift  # noqa: E402
 
 
 def lstsq_factory(ctx):
+    from vf.symsparse import _term_key
+    from vf.sym import PathCtx
+
     def lstsq(A, b, *a, **k):
         A = np.asarray(A)
-        ctx.stub_used("scipy.linalg.lstsq(A, b)[0]: SOME vector of length A.shape[1] (arbitrary mixing coefficients; the least-squares property is not used)")
-        n = ctx.__dict__.setdefault("lstsq_calls", 0)
-        ctx.__dict__["lstsq_calls"] = n + 1
-        g = np.array([ctx.real(f"gamma{n}_{j}", sample=(-1.0, 1.0)) for j in range(A.shape[1])], dtype=object)
-        return g, None, None, None
+        ctx.stub_used("scipy.linalg.lstsq(A, b)[0]: SOME vector of length A.shape[1], a function of (A, b) (arbitrary mixing coefficients; the least-squares property is not used)")
+        memo = ctx.__dict__.setdefault("lstsq_memo", {})
+        if memo.get("__pc") is not PathCtx.cur:
+            memo.clear()
+            memo["__pc"] = PathCtx.cur
+        key = (A.shape, tuple(_term_key(v) for v in A.flat), tuple(_term_key(v) for v in np.asarray(b).flat))
+        if key not in memo:
+            n = ctx.__dict__.setdefault("lstsq_calls", 0)
+            ctx.__dict__["lstsq_calls"] = n + 1
+            memo[key] = np.array([ctx.real(f"gamma{n}_{j}", sample=(-1.0, 1.0)) for j in range(A.shape[1])], dtype=object)
+        return memo[key].copy(), None, None, None
     return lstsq
 
 
@@ -362,14 +371,24 @@ STEP_STUBS["hmean"] = _stubs.hmean_stub
 
 
 def _abstract_mobility_and_cost(ctx, w):
+    """the abstractions are FUNCTIONS of the flux: the same flux terms give the same weights (memo shared by all solver objects of one run)"""
     import z3
+    from vf.symsparse import _term_key
+    from vf.sym import PathCtx
     nf = int(w.grid.num_faces)
-    st = {"fw": 0}
+    memo = ctx.__dict__.setdefault("fw_memo", {})
+    if memo.get("__pc") is not PathCtx.cur:
+        memo.clear()
+        memo["__pc"] = PathCtx.cur
+        ctx.__dict__["fw_calls"] = 0
 
     def face_weight(flat_flux):
-        k = st["fw"]
-        st["fw"] += 1
-        fw = np.array([ctx.real(f"fw{k}_{i}", pos=True, sample=(0.1, 5.0)) for i in range(nf)], dtype=object)
+        key = tuple(_term_key(v) for v in flat_flux)
+        if key not in memo:
+            k = ctx.__dict__["fw_calls"]
+            ctx.__dict__["fw_calls"] = k + 1
+            memo[key] = np.array([ctx.real(f"fw{k}_{i}", pos=True, sample=(0.1, 5.0)) for i in range(nf)], dtype=object)
+        fw = memo[key].copy()
         return fw, 1 / fw
     w._compute_face_weight = face_weight
     L1 = z3.Function("l1_dissipation", *([z3.RealSort()] * nf), z3.RealSort())
